@@ -523,7 +523,12 @@ impl<K: ZKey> MapLike for EasyX<K> {
         Some(Ok(()))
     }
     fn get_or_insert(&mut self, k: u64, v: u64) -> Option<Result<u64, String>> {
-        Some(self.0.get_or_insert(K::mk(k), v).map(|r| *r).map_err(|e| e.to_string()))
+        // both spellings of the entry point, chosen by the (deterministic) value: get_or_insert / get_or_insert_with
+        if v % 2 == 0 {
+            Some(self.0.get_or_insert(K::mk(k), v).map(|r| *r).map_err(|e| e.to_string()))
+        } else {
+            Some(self.0.get_or_insert_with(K::mk(k), || v).map(|r| *r).map_err(|e| e.to_string()))
+        }
     }
     fn retain_not(&mut self, k: u64) -> bool {
         self.0.retain(|key, _| key.back() != k);
@@ -537,7 +542,7 @@ impl<K: ZKey> MapLike for EasyX<K> {
             }
             1 => {
                 self.0.reserve(8);
-                Some(Ok(()))
+                Some(self.0.try_reserve(8).map_err(|e| e.to_string()))
             }
             _ => None,
         }
